@@ -299,6 +299,9 @@ EvList(es, s, E) ==
 TruthR(v, s) ==
     IF v.t = "obj" /\ "bool" \in DOMAIN Objs[v.id]
     THEN (IF Objs[v.id].bool.t = "raiser" THEN Fail(s, "Raised:" \o Objs[v.id].bool.id) ELSE R(Objs[v.id].bool, s))
+    \* without __bool__ Python asks __len__ (which may raise as well)
+    ELSE IF v.t = "obj" /\ "len" \in DOMAIN Objs[v.id]
+    THEN (IF Objs[v.id].len.t = "raiser" THEN Fail(s, "Raised:" \o Objs[v.id].len.id) ELSE R(VBool(Objs[v.id].len.n # 0), s))
     ELSE Lift(Truth(v, UK), s)
 
 \* a < b < c : each operand evaluated once, left to right, stops at the first false link
@@ -642,6 +645,8 @@ ApplyFilter(n, v, args, kw, s, E) ==
              [] v.t = "dict" -> R(VInt(Len(v.k)), s)
              [] v.t = "undef" -> IF UKof(v, UK) = "strict" THEN Fail(s, "UndefinedError") ELSE R(VInt(0), s)
              [] v.t \in {"int", "bool", "none", "float"} -> Fail(s, "TypeError")
+             [] v.t = "obj" /\ "len" \in DOMAIN Objs[v.id] ->          \* a data object's own __len__
+                  IF Objs[v.id].len.t = "raiser" THEN Fail(s, "Raised:" \o Objs[v.id].len.id) ELSE R(Objs[v.id].len, s)
              [] OTHER -> Fail(s, "EXCLUDED")
       [] n = "first" ->
            LET it == IterItems(v) IN
